@@ -140,7 +140,7 @@ theorem regAddr_inv (f : Nat) (r : Reg) {s s' : St Store} {a : Int}
     (h : regAddr p (evalInt defaultCache p g f) r s = (.ok a, s')) :
     Inv p g s'.cache s'.dev ∧ KeyAddr p g r a := by
   have hs := sim_regAddr (p := p) (g := g) (sim_evalInt f) r s ⟨(), s.dev⟩
-    ⟨⟨rfl, rfl, rfl, rfl, rfl, logSub_refl _⟩, hI⟩
+    ⟨⟨rfl, rfl, rfl, rfl, rfl, rfl, logSub_refl _⟩, hI⟩
   rw [h] at hs
   exact ⟨hs.2.1.2, hs.2.2 a rfl⟩
 
